@@ -12,6 +12,7 @@ from ..ref import deflate_peer
 from . import c04
 
 LEVEL = 'exploration'
+TECHNIQUE = 'metamorphic runtime monitoring: connection B after history A on one object vs B on a fresh object'
 BUDGET_S = {'quick': 30, 'thorough': 200}
 REQUIRED = {'all': ['oracle.pairs_compared', 'oracle.keys_compared', 'oracle.persist_chains', 'oracle.compressed_frames_inflated']}
 RULE = ('metamorphic: history A (with an abnormal ending: EOF mid-header / mid-frame-header / mid-extended-length / '
